@@ -20,7 +20,7 @@ ASSUMPTIONS = [
     "`ndarray - operator` (no __rsub__) and kronsum of non-square operands are outside the alphabet",
 ]
 
-SCALAR_IDS = ["two", "m3", "zero", "half", "cj", "f2", "np32", "npi3", "arr2", "arrcj"]
+SCALAR_IDS = ["two", "m3", "zero", "half", "cj", "f2", "np32", "npi3", "arr2", "arrcj", "np64", "npc128"]
 DIV_IDS = ["d2", "dm4", "dhalf", "cj"]
 
 
@@ -308,7 +308,15 @@ def cases(tier, seed):
     terms, info = gen(tier)
     info["integer_operator_expressions"] = len(INT_EXPRS)
     _DESC.update(info)
-    return terms + [["INT", n] for n in INT_EXPRS]
+    # pairs of dtype-only operators where NEITHER side has the promoted dtype (float64 with complex64)
+    mixed = []
+    for a, b in (("f8", "c8"), ("c8", "f8")):
+        for ka, kb in (("Identity", "Identity"), ("Identity", "Scalar"), ("Scalar", "Identity"), ("Scalar", "Scalar")):
+            mk = lambda k, tok: ["Identity", 3, tok] if k == "Identity" else ["Scalar", "m3", 3, tok]  # noqa: E731
+            for op in ("matmul", "add", "kron"):
+                mixed.append([op, mk(ka, a), mk(kb, b)])
+    info["mixed_precision_identity_scalar_pairs"] = len(mixed)
+    return terms + mixed + [["INT", n] for n in INT_EXPRS]
 
 
 def run_case(term, seed):
